@@ -99,7 +99,7 @@ def get_hess(func, p0, eps, args=()):
         func (func): Model function
         p0 (list[float]): Parameter values to take derivative around
         eps (list[float]): Fractional stepsize to use when taking finite-difference derivatives
-            Note that if eps*param is < 1e-6, then the step size for that parameter
+            Note that if abs(eps*param) is < 1e-6, then the step size for that parameter
             will simply be eps, to avoid numerical issues with small parameter
             perturbations.
         args (list or tuple): Additional arguments to func
@@ -111,7 +111,8 @@ def get_hess(func, p0, eps, args=()):
     for i, pval in enumerate(p0):
         if pval != 0:
             # Account for floating point arithmetic issues
-            if pval*eps_in < 1e-6:
+            # (in magnitude: a negative parameter is not a tiny one)
+            if abs(pval)*eps_in < 1e-6:
                 eps[i] = eps_in
                 one_sided[i] = True
             else:
@@ -136,7 +137,7 @@ def get_grad(func, p0, eps, args=()):
         func (func): Model function
         p0 (list[float]): Parameters for func
         eps (list[float]): Fractional stepsize to use when taking finite-difference derivatives
-            Note that if eps*param is < 1e-6, then the step size for that parameter
+            Note that if abs(eps*param) is < 1e-6, then the step size for that parameter
             will simply be eps, to avoid numerical issues with small parameter
             perturbations.
         args (list or tuple): Additional arguments to func
@@ -148,7 +149,8 @@ def get_grad(func, p0, eps, args=()):
     for i, pval in enumerate(p0):
         if pval != 0:
             # Account for floating point arithmetic issues
-            if pval*eps_in < 1e-6:
+            # (in magnitude: a negative parameter is not a tiny one)
+            if abs(pval)*eps_in < 1e-6:
                 eps[i] = eps_in
                 one_sided[i] = True
             else:
